@@ -9,7 +9,12 @@ use parking_lot::Mutex;
 use stretto_sim_rt::sync::{bounded, Mutex, RecvError};
 use std::collections::hash_map::RandomState;
 use std::hash::BuildHasher;
+#[cfg(transparencies_stretto_verif)]
+use std::sync::atomic::Ordering;
+#[cfg(not(transparencies_stretto_verif))]
 use std::sync::atomic::{AtomicBool, Ordering};
+#[cfg(transparencies_stretto_verif)]
+use stretto_sim_rt::sync::AtomicBool;
 use std::sync::Arc;
 
 pub(crate) struct LFUPolicy<S = RandomState> {
